@@ -16,8 +16,14 @@
 // referenced, 113 hash chains) are walked and reconciled with the model:
 // eviction victims are not predicted (the statement does not say which page
 // goes) but every disappearance must be justified (replaced by a store with the
-// same key / memory pressure / network without references), and all counters
-// and the memory accounting must be exact.
+// same key / memory pressure and not beyond need / network without references),
+// and all counters and the memory accounting must be exact.
+//
+// The generator steers around nothing.  Four defects of cache.c found with this
+// world (out/C10/fix-1..4.diff; replays in regress/C10 and out/C10) are probed
+// by the shape_* counters: reuse of a victim block of another size, a victim
+// collected twice by the two scans of a store, foreach without a page in a lap,
+// and (oracle leniency strict_put=0) a store failing although room could be made.
 //
 // Search: a bounded-exhaustive prefix (all histories of depth 4 [quick] / 5
 // [thorough] over a 14-symbol operation alphabet on 3 pages, enumerated in
@@ -60,8 +66,10 @@ static const Fn FN[] = {
     {PAGE_FUNCTION_DRCS, 0, 0, "drcs"},   {PAGE_FUNCTION_GDRCS, 0, 0, "gdrcs"},  {PAGE_FUNCTION_AIT, 0, 0, "ait"},
     {PAGE_FUNCTION_DATA, 0, 0, "data"},   {PAGE_FUNCTION_UNKNOWN, 0, 0x10, "unk_ext"}};
 static const int NFN = 11;
-static const long LIMITS[] = {1000, 1564, 1600, 2500, 3200, 4600, 6500, 9100, 16000, 65536, 1 << 20, 1 << 30};
-static const int NLIMIT = 12;
+// 1564 = one plain page, 3128 = two, 4692 = three (a cache that is exactly full: the block of the single victim is
+// reused); the others leave a remainder.  New values go before the last one (replay files name limits by index).
+static const long LIMITS[] = {1000, 1564, 1600, 2500, 3200, 4600, 6500, 9100, 16000, 65536, 1 << 20, 3128, 4692, 1 << 30};
+static const int NLIMIT = 14;
 
 static const size_t HDR_FROM = offsetof(cache_page, function);
 static const size_t HDR_TO = offsetof(cache_page, x28_designations) + sizeof(unsigned int);
@@ -111,6 +119,9 @@ struct Sim10 {
   std::vector<int> slots[2];                             // page references owned by client / holder (entry ids)
   int cur = -1;                                          // model id of the decoder's network
   int replaced_gone = 0;
+  long evict_needed = -1;                                // settle(): memory the call had to make room for besides memory_used (-1: no eviction expected)
+  long pre_victim = 0;                                   // settle(): size of a victim the operation already accounted for (its block was reused)
+  int evict_free = -1;                                   // settle(): entry replaced by the store (its memory is reused, it is not an eviction victim)
   double ts = 100.0;
   int64_t puts_ok = 0, hits = 0, steps = 0;
   Fnv abst;
@@ -196,6 +207,8 @@ struct Sim10 {
     if (ctx.failed || !ca) return;
     steps++;
     auto inS = [&](int id) { for (int x : S) if (x == id) return true; return false; };
+    long max_victim = pre_victim; int n_victims = pre_victim > 0 ? 1 : 0;
+    pre_victim = 0;
     // ---- networks
     std::vector<const struct node*> nn;
     if (!walk(&ca->networks, nn, "networks")) return;
@@ -246,6 +259,7 @@ struct Sim10 {
       if (it == rix.end()) {
         if (e.refs > 0) { ctx.fail("oracle:held-page-freed", "after %s: page %x.%x (entry %d) is held %d times but no longer on any list", op, e.pgno, e.subno, e.id, e.refs); return; }
         if (e.st == LIVE) {
+          if (e.id != evict_free) { n_victims++; if (e.size > max_victim) max_victim = e.size; }
           if (inS(e.id)) { replaced_gone++; ctx.count("replaced"); }
           else if (n.dead || n.refs == 0) ctx.count("dropped_with_network");
           else if (pressure) ctx.count("evicted");
@@ -261,7 +275,7 @@ struct Sim10 {
           if (e.refs == 0) { ctx.fail("oracle:zombie-not-freed", "after %s: replaced page %x.%x (entry %d) lost its last reference but was not freed", op, e.pgno, e.subno, e.id); return; }
         } else if (zr) {
           if (!inS(e.id)) { ctx.fail("oracle:page-lost", "after %s: page %x.%x (entry %d) was made unreachable (zombie) without a store replacing it", op, e.pgno, e.subno, e.id); return; }
-          mru_remove(e); e.st = ZOMBIE; replaced_gone++; ctx.count("zombie_created");
+          mru_remove(e); e.st = ZOMBIE; replaced_gone++; ctx.count("zombie_created"); ctx.count("fault_replace_while_held");
           if (e.refs == 0) { ctx.fail("oracle:zombie-not-freed", "after %s: unreferenced page %x.%x (entry %d) turned into a zombie instead of being freed", op, e.pgno, e.subno, e.id); return; }
         }
       }
@@ -305,6 +319,16 @@ struct Sim10 {
     }
     if (ca->memory_used != mem) { ctx.fail("oracle:memory-accounting", "after %s: memory_used %lu, unreferenced pages occupy %lu", op, ca->memory_used, mem); return; }
     if (ca->memory_used > ca->memory_limit) { ctx.fail("oracle:memory-limit", "after %s: memory_used %lu exceeds memory_limit %lu", op, ca->memory_used, ca->memory_limit); return; }
+    // "Not evicted": a page may be removed to stay within the limit, not beyond need.  Whatever the order of the
+    // victims, the call had not yet enough room before it took the last one, so with the largest victim (V) put back
+    // the limit must be exceeded: memory_used + V + (room the call needed) > limit.  Sound for any policy that stops
+    // evicting as soon as the call fits; the choice of victims stays free.
+    if (pressure && evict_needed >= 0 && n_victims > 0) {
+      if ((long)ca->memory_used + max_victim + evict_needed <= limit) { ctx.fail("oracle:evicted-needlessly", "after %s: %d pages were evicted (largest %ld bytes) although memory_used %lu + %ld + the %ld bytes the call needed fit the limit %ld", op, n_victims, max_victim, ca->memory_used, max_victim, evict_needed, limit); return; }
+      ctx.count("eviction_need_checked");
+      if ((long)ca->memory_used + evict_needed == limit) ctx.count("eviction_to_exact_fit");
+    }
+    evict_needed = -1; evict_free = -1;
     // abstract state for the exploration measure
     int nl = 0, nz = 0, nh = 0, nn_ = 0;
     for (auto& e : entries) { if (e.st == LIVE) nl++; if (e.st == ZOMBIE) nz++; if (e.st != DEAD && e.refs) nh++; }
@@ -338,28 +362,22 @@ struct Sim10 {
       long avail = limit - (long)ca->memory_used;
       if (!S.empty() && entries[(size_t)S[0]].refs == 0) avail += entries[(size_t)S[0]].size;
       pressure = avail < (long)size;
+      if (pressure) ctx.count((long)size <= limit ? "fault_memory_pressure" : "fault_page_larger_than_limit");
       if (S.size() > 1) ctx.count("ambiguous_replace");
       {
-        // KNOWN SHAPE (reported): "replace a single page of same size" reuses the victim's block when the memory
-        // available equals the memory needed — which does not imply that the victim has the size of the new page:
-        // a larger page is copied into a smaller block (heap overflow) or the accounting goes wrong.
+        // Probe (was a defect, repaired: regress/C10/reuse-mismatch-*.json): the memory available equals the memory
+        // needed with a single victim of ANOTHER size - the victim's block must not be reused for the new page.
         bool shape = false;
         if (!S.empty() && entries[(size_t)S[0]].refs == 0) shape = avail == (long)size && entries[(size_t)S[0]].size != (int)size;
         else if (pressure) for (auto& e : entries) if (e.st == LIVE && e.refs == 0 && e.size != (int)size && avail + e.size == (long)size) shape = true;
-        if (shape) {
-          ctx.count("reuse_mismatch_shape");
-          if (plan.knob("avoid_reuse_mismatch", 1)) { ctx.log("t%d put net=%d %x.%x skipped (block of another size would be reused)", who, net, pgno, subno); free(src); return; }
-        }
+        if (shape) ctx.count("shape_reuse_other_size");
       }
       if (pressure) {
-        // KNOWN SHAPE (reported): the victim scan first collects pages of networks nobody references; when that
-        // is not enough a second scan collects ALL pages again, the first ones twice, and frees them twice.
+        // Probe (was a defect, repaired: regress/C10/double-victim-*.json): the pages of networks nobody references
+        // do not suffice, so the victim scan goes on to the pages of referenced networks - no page twice.
         long sum1 = 0;
         for (auto& e : entries) if (e.st == LIVE && e.refs == 0 && nets[(size_t)e.net].refs == 0 && !(!S.empty() && S[0] == e.id)) sum1 += e.size;
-        if (sum1 > 0 && avail + sum1 < (long)size) {
-          ctx.count("double_victim_shape");
-          if (plan.knob("avoid_double_victim", 1)) { ctx.log("t%d put net=%d %x.%x skipped (victim scan would free a page twice)", who, net, pgno, subno); free(src); return; }
-        }
+        if (sum1 > 0 && avail + sum1 < (long)size) ctx.count("shape_two_victim_scans");
       }
     }
     bool fits = (long)size <= limit;
@@ -372,6 +390,7 @@ struct Sim10 {
     ctx.log("t%d put net=%d %x.%x %s size=%u keep=%d -> %s subno=%x", who, net, pgno, subno, f.name, size, keep, cp ? "ok" : "null", cp ? cp->subno : -1);
     if (k.refused) {
       if (cp) { ctx.fail("oracle:put-accepted-nonpage", "page number %x (xFF is not a page) was stored", pgno); return; }
+      ctx.count("fault_put_nonpage");
       settle("put(refused)", {}, false, false); return;
     }
     if (!cp) {
@@ -388,12 +407,14 @@ struct Sim10 {
     // success
     if (cp->subno != k.stored && cp->subno != k.stored_alt) { ctx.fail("oracle:put-subno", "page %x stored with subno %x -> filed under %x, expected %x", pgno, subno, cp->subno, k.stored); return; }
     if (cp->subno != k.stored) ctx.count("clock_23xx_filed_under_0");
+    evict_free = (!S.empty() && entries[(size_t)S[0]].refs == 0) ? S[0] : -1;
     auto old = by_ptr.find(cp);
     if (old != by_ptr.end()) {  // the block of an older version was reused for the new one
       Entry& o = entries[(size_t)old->second];
       bool inS = false; for (int x : S) if (x == o.id) inS = true;
       if (o.refs > 0) { ctx.fail("oracle:held-page-freed", "store of %x.%x reused the memory of held page %x.%x (entry %d)", pgno, subno, o.pgno, o.subno, o.id); return; }
       if (o.st == LIVE) {
+        if (o.id != evict_free) pre_victim = o.size;
         if (inS) { replaced_gone++; ctx.count("replaced"); }
         else if (pressure) ctx.count("evicted");
         else { ctx.fail("oracle:page-lost", "store of %x.%x overwrote unrelated page %x.%x (entry %d) without memory pressure", pgno, subno, o.pgno, o.subno, o.id); return; }
@@ -410,6 +431,7 @@ struct Sim10 {
     if (e.subno > 0xFF) n.nonstd.insert(pgno);
     if (!n.evermax.count(pgno) || n.evermax[pgno] < e.subno) n.evermax[pgno] = e.subno;
     if (!check_content(entries.back())) { ctx.fail("oracle:content", "page %x.%x just stored differs from the page given", pgno, e.subno); return; }
+    evict_needed = (long)size;  // the new page is referenced: not yet part of memory_used, but room for it was made
     settle("put", S, pressure, true);
     if (ctx.failed) return;
     slots[who].push_back(e.id);
@@ -424,13 +446,14 @@ struct Sim10 {
     Entry& e = entries[(size_t)id];
     if (e.st == DEAD || e.refs <= 0) { ctx.fail("harness:slot", "slot refers to a dead entry"); return; }
     bool pressure = e.refs == 1 && e.st == LIVE && (long)ca->memory_used + e.size > limit;
-    if (e.st == ZOMBIE && e.refs == 1) { ctx.count("zombie_released"); if (nets[(size_t)e.net].refs == 0) ctx.count("zombie_released_after_network_dropped"); }
+    if (e.st == ZOMBIE && e.refs == 1) { ctx.count("zombie_released"); if (nets[(size_t)e.net].refs == 0) { ctx.count("zombie_released_after_network_dropped"); ctx.count("fault_late_release_after_network_drop"); } }
     replaced_gone = 0;
     budget_begin("cache_page_unref", 2000000);
     { SutScope ss; cache_page_unref((cache_page*)e.ptr); }
     budget_end();
     e.refs--;
     ctx.log("t%d unref %x.%x entry=%d refs=%d", who, e.pgno, e.subno, id, e.refs);
+    evict_needed = 0;
     settle("unref", {}, pressure, false);
   }
 
@@ -529,7 +552,7 @@ struct Sim10 {
     ctx.log("ptype net=%d %x clock=%d", net, pgno, clock);
   }
 
-  struct FeCtx { Sim10* s; int net; int calls; int stop_after; bool bad; };
+  struct FeCtx { Sim10* s; int net; int calls; int stop_after; bool bad; int last_ret; };
   static int fe_cb(cache_page* cp, vbi_bool wrapped, void* ud) {
     HarnessScope hs;
     FeCtx* f = (FeCtx*)ud; Sim10& s = *f->s;
@@ -542,7 +565,8 @@ struct Sim10 {
     if (!s.check_content(e)) { s.ctx.fail("oracle:content", "foreach: page %x.%x is not copy-equal to the stored one", e.pgno, e.subno); f->bad = true; return 1; }
     s.mru_front(e);  // foreach finds pages by look-up
     s.ctx.log("  visit %x.%x wrapped=%d", e.pgno, e.subno, wrapped);
-    return (f->calls >= f->stop_after || wrapped) ? 1 : 0;
+    f->last_ret = (f->calls >= f->stop_after || wrapped) ? 1 : 0;
+    return f->last_ret;
   }
 
   void op_foreach(int64_t h, int64_t pi, int64_t si, int64_t dir, int64_t stop_after) {
@@ -555,15 +579,12 @@ struct Sim10 {
       const struct ttx_page_stat* ps = cache_network_const_page_stat(n.ptr, e.pgno);
       if (e.st == LIVE && ps->n_subpages > 0 && e.subno >= ps->subno_min && e.subno <= ps->subno_max) reach++;
     }
-    // KNOWN SHAPE (reported, see props fragment): the walk only ends when the callback says so; when no page of
-    // the network can be found through the per-page statistics (only replaced-but-held versions left, only
-    // clock pages whose subno does not fit the 8-bit statistics, subno 0 stored before a higher one ...) a lap
-    // never calls back and the function never returns.  knob avoid_foreach_nolap=0 re-enables the shape.
-    if (any > 0 && reach == 0) {
-      ctx.count("foreach_nolap_shape");
-      if (plan.knob("avoid_foreach_nolap", 1)) { ctx.log("foreach net=%d skipped (no page reachable by a lap)", net); return; }
-    }
-    FeCtx f{this, net, 0, 1 + (int)absmod(stop_after, 6), false};
+    // Probe (was a defect, repaired: regress/C10/foreach-nolap-*.json): no page of the network can be found through
+    // the per-page statistics (only replaced-but-held versions left, only clock pages whose subno does not fit the
+    // 8-bit statistics, ...): a lap calls back no page; the walk must still end (and then returns 0).
+    bool nolap = any > 0 && reach == 0;
+    if (nolap) ctx.count("shape_foreach_no_page_in_lap");
+    FeCtx f{this, net, 0, 1 + (int)absmod(stop_after, 6), false, 0};
     int d = absmod(dir, 2) ? -1 : +1;
     ctx.log("foreach net=%d from %x.%x dir=%d stop_after=%d", net, pgno, subno, d, f.stop_after);
     replaced_gone = 0;
@@ -574,6 +595,9 @@ struct Sim10 {
     if (ctx.failed) return;
     ctx.log("foreach -> %d after %d visits", r, f.calls);
     if (any == 0 && (f.calls || r)) { ctx.fail("oracle:foreach-stale", "foreach on an empty network visited %d pages", f.calls); return; }
+    // the walk ends when the callback says so (its value is handed through) or, with 0, when there is nothing (more) to visit
+    if (r != f.last_ret) { ctx.fail("oracle:foreach-result", "foreach returned %d, the last callback returned %d (%d visits)", r, f.last_ret, f.calls); return; }
+    if (nolap && f.calls == 0) ctx.count("foreach_ended_without_page");
     ctx.count("foreach_visits", f.calls);
     // every visit takes and drops a reference
     settle("foreach", {}, false, false);
@@ -614,7 +638,7 @@ struct Sim10 {
       { SutScope ss; vbi_decode(dec, nullptr, 0, ts); }
       budget_end();
     }
-    if (held) ctx.count("hold_across_switch");
+    if (held) { ctx.count("hold_across_switch"); ctx.count("fault_switch_while_held"); }
     ctx.count("switches");
     int prev = cur;
     if (dec->cn == old.ptr && (old.refs > 0 || held)) { ctx.fail("oracle:switch-kept-network", "after the channel switch the decoder still uses the old network %d", prev); return; }
@@ -682,7 +706,7 @@ struct Sim10 {
     { SutScope ss; cache_network_unref(n.ptr); }
     budget_end();
     n.refs--;
-    if (n.refs == 0 && has_held(net)) ctx.count("network_dropped_with_held_pages");
+    if (n.refs == 0 && has_held(net)) { ctx.count("network_dropped_with_held_pages"); ctx.count("fault_network_drop_while_held"); }
     ctx.log("netunref net=%d refs=%d", net, n.refs);
     settle("netunref", {}, false, false);
   }
@@ -742,13 +766,9 @@ struct C10 : World {
     p.knobs["pparam"] = (p.knobs["policy"] == 1) ? 40 + (int64_t)r.below(55) : (int64_t)r.below(4);
     p.knobs["release_rev"] = (int64_t)r.below(2);
     p.knobs["release_holder_first"] = (int64_t)r.below(2);
-    // Shapes of reported, unrepaired defects are avoided by default so that exploration goes on behind them.
-    // Re-enable: edit the knob in a replay file, or export C10_REPORTED=1 for a whole batch (experiments only).
-    bool reported = getenv("C10_REPORTED") != nullptr;
-    p.knobs["avoid_foreach_nolap"] = reported ? 0 : 1;  // op_foreach: endless walk when no page is reachable by a lap
-    p.knobs["avoid_double_victim"] = reported ? 0 : 1;  // op_put: double free when pages of unreferenced networks do not suffice
-    p.knobs["avoid_reuse_mismatch"] = reported ? 0 : 1;  // op_put: victim block of another size reused for the new page
-    p.knobs["strict_put"] = reported ? 1 : 0;           // op_put: spurious failure / loss of the held old version under pressure
+    // Oracle leniency, not steering: 0 accepts a store that fails under memory pressure although evicting every
+    // unreferenced page would have made room (see op_put); 1 demands success (green once out/C10/fix-4.diff is in).
+    p.knobs["strict_put"] = 1;  // cache.c repaired (fix: cbc73fe): a store that fits must succeed
     bool thorough = tier == "thorough";
     if (r.chance(1, 8)) {
       // bounded-exhaustive block
